@@ -72,9 +72,28 @@ def main(argv=None):
     if not tasks:
         print(f"UNDECIDED property={prop}: no contracts / zero obligations generated")
         return 2
+    global KERNEL_SELFTEST
+    try:
+        from vk import selftest
+
+        KERNEL_SELFTEST = [(n, bool(ok)) for n, ok in selftest.run(seed)]
+    except Exception as e:  # noqa
+        KERNEL_SELFTEST = [(f"kernel selftest crashed: {type(e).__name__}: {e}", False)]
     results = run_pool(tasks, a.jobs, timeout=a.timeout or (900 if a.tier == "quick" else 7200))
     code = report(prop, a, seed, results, time.time() - t0)
+    if any(not ok for _, ok in KERNEL_SELFTEST) and code in (0, 2):
+        for n, ok in KERNEL_SELFTEST:
+            if not ok:
+                print(f"  KERNEL-SELFTEST-FAILED {n}")
+        code = 3
     return code
+
+
+KERNEL_SELFTEST = []
+
+
+def _unused():
+    return None
 
 
 def _worker(task, q):
@@ -297,6 +316,8 @@ def write_evidence(prop, a, seed, results, obl, discharged, total, known_hit, ne
             "canaries": {"total": sum(len(r.get("canaries", [])) for r in results), "refuted_as_required": sum(1 for r in results for c in r.get("canaries", []) if c["refuted"])},
             "side_conditions": {"proved": sum(1 for _, s in side if s == "proved"), "assumed": sorted({t for t, s in side if s == "assumed"})[:40]},
             "rebinding_inventory": sorted({i for r in results for i in r.get("inventory", [])}),
+            "kernel_selftest": [{"test": n, "ok": ok} for n, ok in KERNEL_SELFTEST],
+            "second_opinion_z3": {"confirmed_unsat": sum((r.get("second_opinion") or {}).get("z3_unsat", 0) for r in results), "unknown_ring_only": sum((r.get("second_opinion") or {}).get("z3_unknown", 0) for r in results), "sample": next(((r.get("second_opinion") or {}).get("sample") for r in results if (r.get("second_opinion") or {}).get("sample")), None)},
             "bounded_standins_not_counted": bounded,
             "notes": notes,
             "ledger": ledger_msgs,
